@@ -104,6 +104,10 @@ def build_argv(it, tmp):
         if fstate == "absent":
             path = "out.json" if fv % 2 else mk("out.json")
             info["target"] = mk("out.json")
+            for sib in ("out.json.tmp", "out.json~", "out.json.bak", ".out.json.swp", "out.json.part", "out"):
+                with open(mk(sib), "w") as f:
+                    f.write(SENTINEL)
+                info["sentinels"].append(mk(sib))
         elif fstate in ("existing", "existing-dotslash"):
             with open(mk("have.json"), "w") as f:
                 f.write(SENTINEL)
@@ -466,7 +470,7 @@ def enum_grid(tier):
                    "words": 12, "testnet": bool(n & 1), "paranoia": bool(n & 2), "account": [None, 0, 5][n % 3],
                    "interval": [[0, 1], None, [3, 4], [7, 7]][n % 4] if fault == "none" or n % 2 else [0, 1],
                    "file": fstate, "fault": fault, "fv": n, "spell": [n % 3, (n // 3) % 3, 0, 0, n % 2, 0],
-                   "order": [0, 1, 2, 3, 4], "subprocess": 99}
+                   "order": [0, 1, 2, 3, 4], "subprocess": 0 if fault == "none" else 99}
 
 
 def gen_thorough(tier):
